@@ -51,8 +51,9 @@ Try == /\ T[l].ev = "try"
              THEN \* the whole frame is buffered: it must be accepted, exactly
                   /\ Report(e.out = "ok", <<"BAD", IF e.out = "NotEnoughData" THEN "asks-more-than-the-frame" ELSE "complete-frame-rejected", l, 0>>)
                   /\ Report(e.out # "ok" \/ e.n = L, <<"BAD", "consumed-length-not-frame-length", l, 0>>)
-                  /\ IF e.out = "ok" THEN cons' = cons + e.n /\ got' = got + 1 /\ want' = 1
-                     ELSE cons' = cons + L /\ got' = got + 1 /\ want' = 1      \* resynchronise
+                  \* whatever was reported, continue from the true frame boundary (the harness
+                  \* restores its buffer to that point), so one bad line does not hide the rest
+                  /\ cons' = cons + L /\ got' = got + 1 /\ want' = 1
              ELSE \* a proper prefix: only "not enough data" with 1 <= need <= missing
                   /\ Report(e.out # "ok", <<"BAD", "prefix-accepted", l, 0>>)
                   /\ Report(e.out = "ok" \/ e.out = "NotEnoughData", <<"BAD", "prefix-rejected-with-other-error", l, 0>>)
